@@ -63,6 +63,16 @@ def judge_exec(prog, r, exp, r1, spec, conv, out, r2=None):
             if got != val:
                 found.append(("probe-mismatch", "probe %s read %r, sequential evaluation reads %r" % (sid, got, val)))
                 break
+        if "probe-mismatch" in cats and not r.unfinished and r.started == r1.started:
+            # scoped values as seen at the beginning of EVERY step of every task (no probe statement needed)
+            for key, val in r1.auto.items():
+                if val is P.ANY:
+                    continue
+                got = r.auto.get(key)
+                if got is not None and got != val:
+                    found.append(("probe-mismatch", "task %s, step %d begins with scoped values %r, sequential evaluation has %r"
+                                  % (key[0], key[1], got, val)))
+                    break
         for tid, c in r.computed.items():
             if tid in r.started and c != 1 and not r.unfinished:
                 found.append(("task-not-computed", "task %s started but its completion was announced %d times" % (tid, c)))
